@@ -26,6 +26,7 @@ func genSetup(t *rapid.T) vk.AsyncSetup {
 	}
 	if !s.ViaRefresh {
 		s.Second = rapid.Bool().Draw(t, "second")
+		s.Restart = rapid.IntRange(0, 2).Draw(t, "restart") == 0
 	}
 	// initial occupancy: empty ... full (+1 for the in-flight slot)
 	switch rapid.IntRange(0, 3).Draw(t, "occ") {
